@@ -15,6 +15,7 @@ import (
 	"math/rand"
 	"os"
 	"sort"
+	"strings"
 	"strconv"
 	"sync"
 	"testing"
@@ -119,7 +120,8 @@ func exploreOnce(t *testing.T, id int, rnd *rand.Rand, mode string) (rec0 Record
 	synctest.Test(t, func(t *testing.T) {
 		chain := vh.NewChain("c", 1, 12, time.Now().Add(-time.Hour), time.Second, 0)
 		rs := rec.New()
-		st, err := store.NewStore[*vh.Header](rs, store.WithWriteBatchSize(c.bsz), store.WithStoreCacheSize(2), store.WithIndexCacheSize(2))
+		cacheSz := []int{2, 64}[id/2%2] // tiny caches (everything is read from the datastore) or caches that keep what they were given
+		st, err := store.NewStore[*vh.Header](rs, store.WithWriteBatchSize(c.bsz), store.WithStoreCacheSize(cacheSz), store.WithIndexCacheSize(cacheSz))
 		if err != nil {
 			fatal = err.Error()
 			return
@@ -146,7 +148,7 @@ func exploreOnce(t *testing.T, id int, rnd *rand.Rand, mode string) (rec0 Record
 			return out
 		}
 		store.VerifHook = sc.hook
-		rs.Gate = func(ctx context.Context, point, key string) { sc.hook(ctx, point) }
+		rs.Gate = func(ctx context.Context, point, key string) { sc.hook(ctx, point+" "+key) }
 		defer func() { store.VerifHook = nil; rs.Gate = nil }()
 
 		var mu sync.Mutex
@@ -208,7 +210,8 @@ func exploreOnce(t *testing.T, id int, rnd *rand.Rand, mode string) (rec0 Record
 		var errs []string
 		// scheduling policy: uniform random walk, or (every other run) one directed preemption
 		preempt := id%2 == 1
-		phase, preludeLeft, victimSteps := 0, rnd.Intn(4), rnd.Intn(14)
+		phase, preludeLeft, victimSteps, helpers := 0, rnd.Intn(4), rnd.Intn(14), 0
+		hotHeight, hotSeen := 0, 0
 		victimProc := "-"
 		victimKind := []string{"append", "append", "sync", "reader", "delete", "stop"}[rnd.Intn(6)]
 		switch {
@@ -311,10 +314,33 @@ func exploreOnce(t *testing.T, id int, rnd *rand.Rand, mode string) (rec0 Record
 						phase = 4
 					}
 				} else if phase == 2 {
-					if victimSteps > 0 && len(relV) > 0 {
+					switch {
+					case hotHeight > 0 && victimSteps > 0 && len(relV) > 0:
+						// step the deleter until it is about to remove the body of the chosen header from the datastore
+						if w := sc.where("D"); strings.HasPrefix(w, "ds.delete.before ") && len(w) > 60 {
+							if hotSeen++; hotSeen == hotHeight {
+								victimSteps = 0
+								phase = 3
+								if rnd.Intn(4) > 0 {
+									// one more reader, of exactly the header that is being removed
+									r := &reader{id: len(readers) + 1, want: hotHeight}
+									readers = append(readers, nil)
+									copy(readers[nextReader+1:], readers[nextReader:])
+									readers[nextReader] = r
+									c.wants = append(c.wants, hotHeight)
+								}
+								break
+							}
+						}
+						acts = relV[:1]
+					case victimSteps > 0 && len(relV) > 0:
 						acts = relV[:1]
 						victimSteps--
-					} else {
+					case victimSteps > 0 && len(relO) > 0 && helpers < 60:
+						// the victim waits for somebody else (a deleter for the flush loop's Sync, ...): let them help it on
+						acts = relO
+						helpers++
+					default:
 						phase = 3
 					}
 				}
@@ -322,7 +348,7 @@ func exploreOnce(t *testing.T, id int, rnd *rand.Rand, mode string) (rec0 Record
 					switch {
 					case len(relO) > 0:
 						acts = relO
-					case len(calls) > 0:
+					case len(calls) > 0 && rnd.Intn(4) > 0: // (some calls are left for after the victim has finished)
 						acts = calls[:1]
 					default:
 						phase = 4
@@ -397,8 +423,12 @@ func exploreOnce(t *testing.T, id int, rnd *rand.Rand, mode string) (rec0 Record
 				}()
 			case "delete":
 				delLeft = false
-				if h := int(st.Height()); h >= 2 && (rnd.Intn(2) == 0 || (preempt && victimKind == "delete")) {
+				if h := int(st.Height()); h >= 2 && (rnd.Intn(2) == 0 || (preempt && victimKind == "delete" && rnd.Intn(2) == 0)) {
 					c.delTo = h // everything below the current head: the deletion ends right under a head that appends are moving
+				}
+				if preempt && victimKind == "delete" && rnd.Intn(2) == 0 {
+					// stop the deleter between the lookup and the first datastore write of one header of the range
+					victimSteps, hotHeight = 1000, 1+rnd.Intn(c.delTo-1)
 				}
 				go func() {
 					// may legitimately fail (range above the head when headers are missing): not judged
